@@ -113,3 +113,42 @@ def u_b_alleles(ctx):
             e.prove("%s:%s:availability/fixation/polymorphism/neutral flags==definition" % (tag, gname), z3.And(*fl))
         return "ok"
     modeb.run_shapes(ctx, "alleles", [(1, 1, 1), (2, 1, 2), (2, 2, 1)], body, max_paths=20000)
+
+
+@unit(P, "B[var_A == population variance of the breeding values, var_a == ploidy^2 * sum u^2 p(1-p), Bulmer ratio, input-form independent]", "B",
+      bounded=True, targets=[GMA + ":DenseAdditiveLinearGenomicModel.var_A", GMA + ":DenseAdditiveLinearGenomicModel.var_A_numpy",
+                             GMA + ":DenseAdditiveLinearGenomicModel.var_a", GMA + ":DenseAdditiveLinearGenomicModel.var_a_numpy",
+                             GMA + ":DenseAdditiveLinearGenomicModel.bulmer"],
+      note="bounded(shape): ntaxa<=3, nvrnt<=2, ntrait<=2; genotypes, effects and intercepts symbolic")
+def u_b_variances(ctx):
+    def body(e, shape, tag):
+        from pybrops.model.gmod.DenseAdditiveLinearGenomicModel import DenseAdditiveLinearGenomicModel as A
+        n, p, t = shape
+        pg, ug, mat, dos, taxa, grp = _pop(n, p)
+        beta = barr.fresh("beta", (1, t), "float64")
+        ua = barr.fresh("ua", (p, t), "float64")
+        trait = numpy.array(["t%d" % i for i in range(t)], dtype=object)
+        ma = A(beta=beta, u_misc=None, u_a=ua, trait=trait)
+        raw = mat.sum(0).astype("int8")
+        bv = [[sum((R(dos[i][j]) * R(ua[j, k]) for j in range(p)), z3.RealVal(0)) for k in range(t)] for i in range(n)]
+        freq = [sum((R(dos[i][j]) for i in range(n)), z3.RealVal(0)) / (2 * n) for j in range(p)]
+        for form, gt in (("phased", pg), ("unphased", ug), ("raw", raw)):
+            vA = ma.var_A(gt)
+            va = ma.var_a(gt)
+            for k in range(t):
+                mean = sum((bv[i][k] for i in range(n)), z3.RealVal(0)) / n
+                spec_A = sum(((bv[i][k] - mean) * (bv[i][k] - mean) for i in range(n)), z3.RealVal(0)) / n
+                e.prove("%s:var_A(%s)[%d]==population variance of the breeding values" % (tag, form, k), R(vA[k]) == spec_A)
+                spec_a = 4 * sum((R(ua[j, k]) * R(ua[j, k]) * freq[j] * (1 - freq[j]) for j in range(p)), z3.RealVal(0))
+                e.prove("%s:var_a(%s)[%d]==ploidy^2*sum u^2 p(1-p)" % (tag, form, k), R(va[k]) == spec_a)
+        bul = ma.bulmer(pg)
+        vA, va = ma.var_A(pg), ma.var_a(pg)
+        for k in range(t):
+            isnan = isinstance(bul[k], float) and bul[k] != bul[k]
+            if isnan:
+                e.prove("%s:bulmer[%d] is NaN only when the genic variance is zero" % (tag, k), R(va[k]) == 0)
+            else:
+                e.prove("%s:bulmer[%d]==var_A/var_a" % (tag, k), z3.And(R(va[k]) != 0, R(bul[k]) * R(va[k]) == R(vA[k])))
+        return "ok"
+    shapes = [(1, 1, 1), (2, 1, 1), (2, 2, 1)] + ([(3, 1, 2), (3, 2, 1), (2, 2, 2)] if ctx.tier == "thorough" else [])
+    modeb.run_shapes(ctx, "variances", shapes, body, timeout_ms=20000)
